@@ -317,11 +317,19 @@ func (d *driver) ops(w *world.World, depth int, path []string) []engine.Op {
 				r := w.Deliver(s.tx(a))
 				post := d.bal()
 				if post.GTE(pre) && r.Code != 0 {
+					res.Counters["spend|"+s.name+"|rejected"]++
 					return "rejected", m
+				}
+				if post.LT(pre) {
+					res.Counters["spend|"+s.name+"|moved"]++
+				} else {
+					res.Counters["spend|"+s.name+"|accepted-without-effect"]++
 				}
 				// something left the account (even a failed tx may have paid a fee)
 				d.checkLocked(res, s.name, m, p)
-				res.Nontrivial[fmt.Sprintf("%s|%s|%s|%d", d.sc.name, s.name, cls, d.now()-d.t0)] = true
+				if post.LT(pre) {
+					res.Nontrivial[fmt.Sprintf("%s|%s|%s|%d", d.sc.name, s.name, cls, d.now()-d.t0)] = true
+				}
 				if r.Code != 0 {
 					return "ok:charged-but-failed", m
 				}
